@@ -186,7 +186,9 @@ func c10Run(inputs []string, failing []bool) (with, without []inObs, failedAsExp
 	failedAsExpected = true
 	for i, in := range inputs {
 		if failing[i] {
-			if !all[i].Err {
+			// (repeating the input that runs out of time inside fslow gets further each time: the levels it completed are
+			// remembered, legitimately; it is only required to fail the first time, see the calibration)
+			if !all[i].Err && !strings.Contains(in, c10ShortMark) {
 				failedAsExpected = false
 			}
 			continue
@@ -353,7 +355,8 @@ func checkC10(c *Ctx) {
 	sort.SliceStable(calib, func(i, j int) bool { return calib[i] != "parse-error-too-deep" && calib[j] == "parse-error-too-deep" }) // (the input most likely to disturb the process: last)
 	for _, fk := range calib {
 		in, fl := c10Inputs([]c10Op{{"fail", fk, 1}})
-		if _, _, failedOK, _ := c10Run(in, fl); !failedOK {
+		obs, _ := runHistory(in, RunOpt{MaxDepth: 300, Timeout: 400 * time.Millisecond, ShortFor: c10ShortMark, Short: c10Short})
+		if _, _, failedOK, _ := c10Run(in, fl); !failedOK || !obs[len(c10Prelude)].Err {
 			c.Infra(fmt.Errorf("the failing input of kind %s does not fail in a fresh session on the real interpreter (harness inputs out of date)", fk))
 			return
 		}
